@@ -65,7 +65,8 @@ def make_tagger(variant_seed: int, density: float):
             if c == "axis":
                 if node.ndim == 0:
                     return node
-                return node.with_tagged_axis(r.randrange(node.ndim), UserAxisTag())
+                # (negative positions too: an axis counted from the end)
+                return node.with_tagged_axis(r.randrange(-node.ndim, node.ndim), UserAxisTag())
             if c == "stored":
                 return node.tagged(ImplStored())
             if c == "inlined":
